@@ -73,11 +73,22 @@ def run(ctx):
                         'numpy, pandas and collections.Counter are modelled as list functions; the .npy header is parsed by numpy']
     ctx.set_obligations(coq.compile_props('C18'))
     q = ctx.tier == 'quick'
-    digits_stream(ctx, cirq, 400 if q else 4000)
-    n = 160 if q else 1600
-    for shard in range(0, n, 160):
-        views_stream(ctx, cirq, min(160, n - shard), shard)
-    sampler_stream(ctx, cirq, 60 if q else 600)
+    try:
+        digits_stream(ctx, cirq, 400 if q else 4000)
+        n = 160 if q else 1600
+        for shard in range(0, n, 160):
+            views_stream(ctx, cirq, min(160, n - shard), shard)
+        sampler_stream(ctx, cirq, 60 if q else 600)
+    except Exception:
+        import traceback
+        ctx.mark_broken('harness-exception', traceback.format_exc()[-2000:])
+    # runner.finish() stays silent about broken correspondences once a known finding was hit; the ones that the
+    # known finding does not explain must still be reported
+    unexplained = [(n_, d_) for n_, d_ in ctx.broken if 'explained by known finding' not in n_]
+    if unexplained and ctx.known_hits and not any(v['found_input'] for v in ctx.violations):
+        ctx.violation('broken:' + ';'.join(sorted({n_ for n_, _ in unexplained})),
+                      'obligation or correspondence no longer checks; no failing input found',
+                      dict(kind='broken', broken=[{'name': n_, 'detail': d_} for n_, d_ in unexplained]), found_input=False)
 
 
 def digits_stream(ctx, cirq, n):
@@ -626,14 +637,14 @@ def sampler_stream(ctx, cirq, n):
         ok = all(g == direct for g in got) and len(log) == 2 and all(l[2] == reps for l in log)
         ctx.count('sampler:run', [type(fake).__name__, str(circ), reps, str(pr)], reps >= 1, sample=dict(sampler=type(fake).__name__, repetitions=reps, records={k: v.tolist() for k, v in direct.records.items()}))
         if not ok:
-            ctx.violation('sampler:run', f'{type(fake).__name__}.run/run_async(reps={reps}) is not run_sweep(...)[0] (calls: {log})', dict(kind='sampler', what='run'))
+            ctx.violation('sampler:run', f'{type(fake).__name__}.run/run_async(reps={reps}) is not run_sweep(...)[0] (calls: {log})', dict(kind='sampler', entry='run'))
         # ---- run_sweep <-> run_sweep_async alternatives agree
         sw = gen_sweep()
         a = fake.run_sweep(circ, sw, reps)
         b = duet.run(fake.run_sweep_async, circ, sw, reps)
         exp = fake_results(circ, sw, reps)
         if not (list(a) == exp and list(b) == exp):
-            ctx.violation('sampler:run_sweep', f'{type(fake).__name__}.run_sweep / run_sweep_async disagree with the implemented method', dict(kind='sampler', what='run_sweep'))
+            ctx.violation('sampler:run_sweep', f'{type(fake).__name__}.run_sweep / run_sweep_async disagree with the implemented method', dict(kind='sampler', entry='run_sweep'))
         ctx.count('sampler:run_sweep', [type(fake).__name__, str(circ), repr(sw), reps], len(exp) >= 2)
         # ---- sample: rows sweep-major, then resolver, then repetition; parameter columns sorted; index = repetition
         nsw = rng.choice([1, 1, 2, 3])
@@ -661,7 +672,7 @@ def sampler_stream(ctx, cirq, n):
                   sample=dict(sampler=type(fake).__name__, params=repr(arg), repetitions=srep, columns=list(map(str, df.columns)), rows=got_rows[:6]))
         if not ok:
             ctx.violation('sampler:sample', f'sample(params={arg!r}, repetitions={srep}) rows {got_rows} (index {list(df.index)}), expected sweep-major {exp_rows}',
-                          dict(kind='sampler', what='sample'))
+                          dict(kind='sampler', entry='sample'))
         # ---- run_batch: order, shapes, broadcasting, errors
         npg = rng.choice([0, 1, 2, 3, 4])
         progs = [gen_circuit(10 + i) for i in range(npg)]
@@ -691,7 +702,7 @@ def sampler_stream(ctx, cirq, n):
                       sample=dict(sampler=type(fake).__name__, programs=npg, params_mode=pmode, repetitions=rl, shape=None if got is None else [len(g) for g in got]))
             if not ok:
                 ctx.violation('sampler:run_batch', f'{entry}({npg} programs, params {pmode}, repetitions {rl}) returned {None if got is None else tags(got)}, expected {None if exp is None else tags(exp)}',
-                              dict(kind='sampler', what=entry))
+                              dict(kind='sampler', entry=entry))
         # the list-function model of _normalize_batch_args / run_batch over sweep identifiers
         plens = None if plist is None else [len(list(cirq.to_resolvers(p))) for p in plist]
         shape = None
@@ -711,7 +722,7 @@ def sampler_stream(ctx, cirq, n):
         ok = ok and zs.run(zc, cirq.ParamResolver({'t': 0, 'u': 0}), reps) == zs.run_sweep(zc, cirq.ParamResolver({'t': 0, 'u': 0}), reps)[0]
         ctx.count('sampler:zeros', [str(zc), repr(sw), reps], reps >= 1)
         if not ok:
-            ctx.violation('sampler:zeros', f'ZerosSampler.run_sweep(reps={reps}) has wrong shapes/parameters', dict(kind='sampler', what='zeros'))
+            ctx.violation('sampler:zeros', f'ZerosSampler.run_sweep(reps={reps}) has wrong shapes/parameters', dict(kind='sampler', entry='zeros'))
     # model: run_batch over an abstract run_sweep that returns (program index, resolver index, repetitions)
     text = ('From Coq Require Import ZArith List Bool.\nFrom VF Require Import Base.Harness Codec.ResultViews.\nImport ListNotations.\nOpen Scope nat_scope.\n'
             'Definition rs (c : nat) (p : nat) (r : nat) : list (nat * nat * nat) := map (fun j => (c, j, r)) (seq 0 p).\n'
@@ -750,5 +761,45 @@ def replay(ctx, data):
         e1 = int(''.join('1' if b else '0' for b in data['bits']) or '0', 2)
         e2 = [(data['val'] >> i) & 1 for i in reversed(range(data['bit_count']))]
         return ib == e1 and bo == e2
+    if k == 'views':
+        recs = collections.OrderedDict((kk, np.array(v['digits'], dtype=v['dtype']).reshape(v['shape'])) for kk, v in data['records'].items())
+        mk = lambda: cirq.ResultDict(params=cirq.ParamResolver({'p': 0.25}), records={kk: a.copy() for kk, a in recs.items()})
+        sm = spec_measurements(recs)
+        meas = _try(lambda: {kk: v.tolist() for kk, v in mk().measurements.items()})
+        ok = meas == sm
+        print('measurements', meas, 'expected', sm)
+        if sm is not None:
+            df = mk().data
+            for kk, rows in sm.items():
+                exp = [sum(int(d) << (len(row) - 1 - i) for i, d in enumerate(row)) for row in rows]
+                print('data', kk, [int(x) for x in df[kk]], 'expected', exp)
+                ok = ok and [int(x) for x in df[kk]] == exp
+            if 'key' in data and data['key'] in sm:
+                h = mk().histogram(key=data['key'], fold_func=FOLDS['id'])
+                ok = ok and dict(h) == dict(collections.Counter(FOLDS['id'](row) for row in sm[data['key']]))
+            if 'keys' in data and all(kk in sm for kk in data['keys']):
+                f = MFOLDS.get(data.get('fold'), lambda rows: tuple(spec_int([1 if d else 0 for d in row]) for row in rows))
+                kw = dict(fold_func=MFOLDS[data['fold']]) if data.get('fold') in MFOLDS else {}
+                h = mk().multi_measurement_histogram(keys=data['keys'], **kw)
+                reps = next(iter(recs.values())).shape[0] if recs else 0
+                exp = collections.Counter(f(tuple(sm[kk][r] for kk in data['keys'])) for r in range(reps))
+                print('multi', dict(h), 'expected', dict(exp))
+                ok = ok and dict(h) == dict(exp)
+        if 'other' in data:
+            recs2 = {kk: np.array(v['digits'], dtype=v['dtype']).reshape(v['shape']) for kk, v in data['other'].items()}
+            r2 = cirq.ResultDict(params=cirq.ParamResolver({'p': 0.25}), records=recs2)
+            tot = _try(lambda: mk() + r2)
+            same = set(recs) == set(recs2) and all(recs[kk].shape[1:] == recs2[kk].shape[1:] for kk in recs)
+            ok = ok and same == (tot is not None) and (tot is None or all(
+                np.array_equal(tot.records[kk], np.concatenate([recs[kk], recs2[kk]], axis=0)) for kk in recs))
+        back = cirq.read_json(json_text=cirq.to_json(mk()))
+        ok = ok and back == mk() and all(back.records[kk].shape == recs[kk].shape for kk in recs)
+        return ok
+    if k == 'sampler':
+        sub = runner.Ctx('C18', 'quick', data.get('seed', 0), LEVEL)
+        sampler_stream(sub, cirq, 60)
+        for v in sub.violations:
+            print(v['what'][:500])
+        return not sub.violations
     print('nothing to replay for kind', k)
     return False
